@@ -11,3 +11,4 @@ import WS.Props.C03
 import WS.Props.C18
 import WS.Props.C19
 import WS.Props.C20
+import WS.Props.C08
